@@ -334,3 +334,87 @@ func callRead(p *prim, w []byte, le bool) (v *rm.Value, consumed int, err error,
 }
 
 var _ = fmt.Sprint
+
+// ---- element types that are NAMED types over the basic kinds (the ~int64 style constraint admits them;
+// code that dispatches on the exact built-in type treats them differently) ----
+
+type namedI64 int64
+type namedU16 uint16
+
+func namedI64ListPrim[T constraints.Unsigned](t string) prim {
+	return prim{
+		name:  "BasicTypeList[" + t + ",named int64]",
+		field: rm.Field{Kind: "list", Count: kindNames[t], Elem: &rm.Field{Kind: "i64"}},
+		write: func(buf *bytes.Buffer, v *rm.Value, le bool) error {
+			var xs []namedI64
+			if !v.Nil {
+				xs = make([]namedI64, len(v.Elems))
+				for i, e := range v.Elems {
+					xs[i] = namedI64(int64(e.Bits))
+				}
+			}
+			if le {
+				return codec.WriteBasicTypeListLE[T](buf, xs)
+			}
+			return codec.WriteBasicTypeList[T](buf, xs)
+		},
+		read: func(buf *bytes.Buffer, le bool) (*rm.Value, error) {
+			var xs []namedI64
+			var err error
+			if le {
+				xs, err = codec.ReadBasicTypeListLE[T, namedI64](buf)
+			} else {
+				xs, err = codec.ReadBasicTypeList[T, namedI64](buf)
+			}
+			if err != nil {
+				return nil, err
+			}
+			l := &rm.Value{K: rm.VList, Nil: xs == nil, Elems: make([]*rm.Value, len(xs))}
+			for i, x := range xs {
+				l.Elems[i] = rm.Scalar(uint64(int64(x)))
+			}
+			return l, nil
+		},
+	}
+}
+
+func namedU16ListPrim[T constraints.Unsigned](t string) prim {
+	return prim{
+		name:  "BasicTypeList[" + t + ",named uint16]",
+		field: rm.Field{Kind: "list", Count: kindNames[t], Elem: &rm.Field{Kind: "u16"}},
+		write: func(buf *bytes.Buffer, v *rm.Value, le bool) error {
+			var xs []namedU16
+			if !v.Nil {
+				xs = make([]namedU16, len(v.Elems))
+				for i, e := range v.Elems {
+					xs[i] = namedU16(uint16(e.Bits))
+				}
+			}
+			if le {
+				return codec.WriteBasicTypeListLE[T](buf, xs)
+			}
+			return codec.WriteBasicTypeList[T](buf, xs)
+		},
+		read: func(buf *bytes.Buffer, le bool) (*rm.Value, error) {
+			var xs []namedU16
+			var err error
+			if le {
+				xs, err = codec.ReadBasicTypeListLE[T, namedU16](buf)
+			} else {
+				xs, err = codec.ReadBasicTypeList[T, namedU16](buf)
+			}
+			if err != nil {
+				return nil, err
+			}
+			l := &rm.Value{K: rm.VList, Nil: xs == nil, Elems: make([]*rm.Value, len(xs))}
+			for i, x := range xs {
+				l.Elems[i] = rm.Scalar(uint64(x))
+			}
+			return l, nil
+		},
+	}
+}
+
+func init() {
+	prims = append(prims, namedI64ListPrim[uint16]("uint16"), namedI64ListPrim[uint32]("uint32"), namedU16ListPrim[uint16]("uint16"), namedU16ListPrim[uint32]("uint32"))
+}
